@@ -140,7 +140,7 @@ class Polytope:
         """Correct wrong normal direction to maintain CCW winding."""
         # Use bias in case dot result is only slightly < 0 (because origin is on face)
         if np.dot(self.faces[face_idx, 0], self.faces[face_idx, 3]) + bias < 0.0:
-            temp = self.faces[face_idx, 0]
+            temp = np.copy(self.faces[face_idx, 0])
             self.faces[face_idx, 0] = self.faces[face_idx, 1]
             self.faces[face_idx, 1] = temp
             self.faces[face_idx, 3] = -self.faces[face_idx, 3]
